@@ -6,6 +6,7 @@ import (
 	"encoding/hex"
 	"errors"
 	"fmt"
+	"reflect"
 	"sort"
 	"strings"
 	"sync"
@@ -76,15 +77,16 @@ var _ wpg.Conn = (*fakeConn)(nil)
 
 // eventB is one declaration under test with everything derived from it.
 type eventB struct {
-	Name    string
-	Nodes   []*ref.Node
-	Indexed []bool
-	Sel     []bool // which inputs are bound to a column (at least one)
-	k       int    // number of indexed inputs of the DECLARATION (selected or not)
-	conf    config.Integration
-	topic0  []byte // reference topic0
-	data    []byte // well-formed data for the non-indexed inputs (empty when all are indexed)
-	sig     string
+	Name     string
+	Nodes    []*ref.Node
+	Indexed  []bool
+	Sel      []bool             // which inputs are bound to a column (at least one)
+	k        int                // number of indexed inputs of the DECLARATION (selected or not)
+	conf     config.Integration // the declaration object handed to dig.New in history cases (part H); part B hands out copies
+	pristine config.Integration // deep copy taken before any dig.New saw the declaration
+	topic0   []byte             // reference topic0
+	data     []byte             // well-formed data for the non-indexed inputs (empty when all are indexed)
+	sig      string
 }
 
 var pgType = map[string]string{"uint256": "numeric", "address": "bytea", "bytes": "bytea", "string": "text", "bool": "bool"}
@@ -162,6 +164,7 @@ func newEventB(name string, nodes []*ref.Node, indexed, sel []bool) (*eventB, er
 		return nil, fmt.Errorf("config.ValidateFix rejected the declaration: %w", err)
 	}
 	ev.conf = root.Integrations[0]
+	ev.pristine = cloneConf(ev.conf)
 	// the block data AddRequiredFields is documented to add
 	wantBD := []string{"ig_name", "src_name", "block_num", "tx_idx", "log_idx"}
 	if selNon {
@@ -333,22 +336,28 @@ type runResult struct {
 	err      error
 	n        int64
 	conn     *fakeConn
+	declDiff string // non-empty: dig.New / Insert modified the declaration they were given
 }
 
-// runSet executes one Insert of one block / one tx holding the logs on a fresh Integration.
-func (ev *eventB) runSet(logs []*logB) (res runResult) {
+// buildIG calls dig.New with the given declaration object exactly as shovel/task.go NewDestination does.
+func buildIG(c *config.Integration) (ig dig.Integration, panicked string, err error) {
+	defer func() {
+		if r := recover(); r != nil {
+			panicked = fmt.Sprint(r)
+		}
+	}()
+	ig, err = dig.New(c.Name, c.Event, c.Block, c.Table, c.Notification, c.FilterAGG)
+	return
+}
+
+// runOn executes one Insert of one block / one tx holding the logs on the given Integration.
+func runOn(ig *dig.Integration, logs []*logB) (res runResult) {
 	res.conn = &fakeConn{}
 	defer func() {
 		if r := recover(); r != nil {
 			res.panicked = fmt.Sprint(r)
 		}
 	}()
-	c := ev.conf
-	ig, err := dig.New(c.Name, c.Event, c.Block, c.Table, c.Notification, c.FilterAGG)
-	if err != nil {
-		res.err = fmt.Errorf("dig.New: %w", err)
-		return
-	}
 	blocks := make([]eth.Block, 1)
 	blocks[0].Header = eth.Header{Number: 100, Hash: bytes.Repeat([]byte{0xB1}, 32), Parent: bytes.Repeat([]byte{0xB0}, 32)}
 	blocks[0].Txs = make(eth.Txs, 1)
@@ -369,6 +378,112 @@ func (ev *eventB) runSet(logs []*logB) (res runResult) {
 	return
 }
 
+// runSet: a FRESH copy of the declaration, a fresh Integration built from it, one Insert.
+// Nothing is shared with any other case; the copy is compared with the pristine declaration afterwards.
+func (ev *eventB) runSet(logs []*logB) (res runResult) {
+	conf := cloneConf(ev.pristine)
+	ig, p, err := buildIG(&conf)
+	if p != "" || err != nil {
+		res.conn = &fakeConn{}
+		res.panicked = p
+		if err != nil {
+			res.err = fmt.Errorf("dig.New: %w", err)
+		}
+		return
+	}
+	res = runOn(&ig, logs)
+	res.declDiff = confDiff(&conf, &ev.pristine)
+	return
+}
+
+// cloneConf: deep copy of everything dig.New receives.
+func cloneConf(c config.Integration) config.Integration {
+	o := c
+	o.Sources = append([]config.Source(nil), c.Sources...)
+	o.Dependencies = append([]string(nil), c.Dependencies...)
+	o.Table.Columns = append([]wpg.Column(nil), c.Table.Columns...)
+	o.Table.Unique = cloneSS(c.Table.Unique)
+	o.Table.Index = cloneSS(c.Table.Index)
+	o.Notification.Columns = append([]string(nil), c.Notification.Columns...)
+	o.Block = nil
+	for _, bd := range c.Block {
+		bd.Filter.Arg = append([]string(nil), bd.Filter.Arg...)
+		o.Block = append(o.Block, bd)
+	}
+	o.Event.Inputs = cloneInputs(c.Event.Inputs)
+	return o
+}
+
+func cloneSS(x [][]string) [][]string {
+	if x == nil {
+		return nil
+	}
+	o := make([][]string, len(x))
+	for i := range x {
+		o[i] = append([]string(nil), x[i]...)
+	}
+	return o
+}
+
+func cloneInputs(ins []dig.Input) []dig.Input {
+	if ins == nil {
+		return nil
+	}
+	o := make([]dig.Input, len(ins))
+	for i, in := range ins {
+		in.Filter.Arg = append([]string(nil), in.Filter.Arg...)
+		in.Components = cloneInputs(in.Components)
+		o[i] = in
+	}
+	return o
+}
+
+func inputsDiff(path string, a, b []dig.Input) string {
+	if len(a) != len(b) {
+		return fmt.Sprintf("%s: %d inputs, were %d", path, len(a), len(b))
+	}
+	for i := range a {
+		p := fmt.Sprintf("%s[%d]", path, i)
+		x, y := a[i], b[i]
+		switch {
+		case x.Type != y.Type:
+			return fmt.Sprintf("%s.type is now %q, was %q", p, x.Type, y.Type)
+		case x.Name != y.Name:
+			return fmt.Sprintf("%s.name is now %q, was %q", p, x.Name, y.Name)
+		case x.Indexed != y.Indexed:
+			return fmt.Sprintf("%s.indexed is now %v, was %v", p, x.Indexed, y.Indexed)
+		case x.Column != y.Column:
+			return fmt.Sprintf("%s.column is now %q, was %q", p, x.Column, y.Column)
+		case x.Op != y.Op || x.Ref != y.Ref || strings.Join(x.Arg, "\x00") != strings.Join(y.Arg, "\x00"):
+			return fmt.Sprintf("%s filter changed", p)
+		}
+		if d := inputsDiff(p+".components", x.Components, y.Components); d != "" {
+			return d
+		}
+	}
+	return ""
+}
+
+// confDiff describes the first difference between a declaration and its pristine copy ("" = deeply equal).
+func confDiff(now, was *config.Integration) string {
+	if now.Event.Name != was.Event.Name || now.Event.Type != was.Event.Type || now.Event.Anon != was.Event.Anon {
+		return "event name/type/anonymous changed"
+	}
+	if d := inputsDiff("event.inputs", now.Event.Inputs, was.Event.Inputs); d != "" {
+		return d
+	}
+	if !reflect.DeepEqual(now.Block, was.Block) {
+		return fmt.Sprintf("block fields are now %v, were %v", now.Block, was.Block)
+	}
+	if !reflect.DeepEqual(now.Table, was.Table) {
+		return fmt.Sprintf("table is now %v, was %v", now.Table, was.Table)
+	}
+	if now.Name != was.Name || now.FilterAGG != was.FilterAGG || !reflect.DeepEqual(now.Notification, was.Notification) {
+		return "name/filter_agg/notification changed"
+	}
+	return ""
+}
+
 func asUint(v any) (uint64, bool) {
 	switch x := v.(type) {
 	case eth.Uint64:
@@ -386,6 +501,14 @@ func asUint(v any) (uint64, bool) {
 // judge returns "" when the log set behaved as the property demands, else (key, class, detail).
 func (ev *eventB) judge(logs []*logB) (key, class, detail string) {
 	r := ev.runSet(logs)
+	if r.declDiff != "" {
+		return "decl:modified-by-dig.New", "mismatch", "dig.New/Insert modified the declaration it was given: " + r.declDiff
+	}
+	return ev.judgeRes(r, logs, "gate:", func(l *logB) runResult { return ev.runSet([]*logB{l}) })
+}
+
+// judgeRes judges the outcome r of one Insert of logs; alone re-runs one log on a fresh Integration (nil: not available).
+func (ev *eventB) judgeRes(r runResult, logs []*logB, pfx string, alone func(*logB) runResult) (key, class, detail string) {
 	classes := make([]string, len(logs))
 	want := 0
 	for i, l := range logs {
@@ -399,8 +522,11 @@ func (ev *eventB) judge(logs []*logB) (key, class, detail string) {
 		if len(logs) == 1 {
 			return classes[0]
 		}
+		if alone == nil {
+			return "log-set"
+		}
 		for i, l := range logs {
-			if bad(ev.runSet([]*logB{l})) {
+			if bad(alone(l)) {
 				return classes[i]
 			}
 		}
@@ -411,20 +537,20 @@ func (ev *eventB) judge(logs []*logB) (key, class, detail string) {
 	switch {
 	case r.panicked != "":
 		cp := culprit(func(x runResult) bool { return x.panicked != "" })
-		key = "gate:panic/" + cp
+		key = pfx + "panic/" + cp
 		if cp == "empty-topics" {
-			key = "gate:panic-empty-topics"
+			key = pfx + "panic-empty-topics"
 		}
 		return key, "panic", fmt.Sprintf("Insert panicked: %s", r.panicked)
 	case r.err != nil:
 		cp := culprit(func(x runResult) bool { return x.err != nil })
-		key = "gate:error/" + cp
+		key = pfx + "error/" + cp
 		if cp == "match" {
-			key = "gate:error-on-matching-log"
+			key = pfx + "error-on-matching-log"
 		}
 		return key, "error", fmt.Sprintf("Insert returned an error: %v", r.err)
 	case len(r.conn.other) > 0 || r.conn.copies != 1:
-		return "gate:unexpected-connection-use", "mismatch", fmt.Sprintf("CopyFrom calls=%d, other calls=%v", r.conn.copies, r.conn.other)
+		return pfx + "unexpected-connection-use", "mismatch", fmt.Sprintf("CopyFrom calls=%d, other calls=%v", r.conn.copies, r.conn.other)
 	}
 	li := -1
 	for i, cn := range r.conn.columns {
@@ -433,7 +559,7 @@ func (ev *eventB) judge(logs []*logB) (key, class, detail string) {
 		}
 	}
 	if li < 0 {
-		return "gate:no-log-idx-column", "mismatch", fmt.Sprintf("CopyFrom columns %v carry no log_idx", r.conn.columns)
+		return pfx + "no-log-idx-column", "mismatch", fmt.Sprintf("CopyFrom columns %v carry no log_idx", r.conn.columns)
 	}
 	per := make([]int, len(logs))
 	for _, row := range r.conn.rows {
@@ -448,29 +574,29 @@ func (ev *eventB) judge(logs []*logB) (key, class, detail string) {
 			}
 		}
 		if pos < 0 {
-			return "gate:wrong-log-idx", "mismatch", fmt.Sprintf("a row carries log_idx=%v which is no log of the transaction (row %v)", row[li], row)
+			return pfx + "wrong-log-idx", "mismatch", fmt.Sprintf("a row carries log_idx=%v which is no log of the transaction (row %v)", row[li], row)
 		}
 		per[pos]++
 	}
 	for i, l := range logs {
 		switch {
 		case !ev.matches(l) && per[i] > 0:
-			return "gate:rows-from-nonmatching/" + classes[i], "mismatch", fmt.Sprintf("log %d (%s) is not a log of the declared event but produced %d row(s)", i, l.Desc, per[i])
+			return pfx + "rows-from-nonmatching/" + classes[i], "mismatch", fmt.Sprintf("log %d (%s) is not a log of the declared event but produced %d row(s)", i, l.Desc, per[i])
 		case ev.matches(l) && per[i] == 0:
 			// root cause: does the matching log produce its row when it is alone in the tx?
-			key = "gate:no-rows-for-matching"
-			if len(logs) == 2 {
-				if alone := ev.runSet([]*logB{l}); alone.panicked == "" && alone.err == nil && len(alone.conn.rows) == 1 {
-					key = "gate:no-rows-for-matching/disturbed-by:" + classes[1-i]
+			key = pfx + "no-rows-for-matching"
+			if len(logs) == 2 && alone != nil {
+				if a := alone(l); a.panicked == "" && a.err == nil && len(a.conn.rows) == 1 {
+					key = pfx + "no-rows-for-matching/disturbed-by:" + classes[1-i]
 				}
 			}
 			return key, "mismatch", fmt.Sprintf("log %d (%s) is a log of the declared event but produced no row", i, l.Desc)
 		case ev.matches(l) && per[i] != 1:
-			return "gate:row-count-for-matching", "mismatch", fmt.Sprintf("log %d (%s) produced %d rows, want 1", i, l.Desc, per[i])
+			return pfx + "row-count-for-matching", "mismatch", fmt.Sprintf("log %d (%s) produced %d rows, want 1", i, l.Desc, per[i])
 		}
 	}
 	if int(r.n) != want || len(r.conn.rows) != want {
-		return "gate:row-count", "mismatch", fmt.Sprintf("Insert returned %d, %d rows copied, want %d", r.n, len(r.conn.rows), want)
+		return pfx + "row-count", "mismatch", fmt.Sprintf("Insert returned %d, %d rows copied, want %d", r.n, len(r.conn.rows), want)
 	}
 	return "", "", ""
 }
